@@ -7,6 +7,9 @@ which starts with a freshly imported Polar).  Model: the same single analysis ex
 in-process signature must equal the fresh one (closed forms as functions at n=0..5 and a parameter point, exactness flag, inferred types up
 to names of generated symbols, invariant ideals, error outcomes).  The last step of every history is additionally re-run fresh under other
 PYTHONHASHSEED values.
+
+A second kind of case is a command-line run over several files (polar.py:main: one action object and one argument namespace for all
+benchmark files); what is printed for each file must be what the same command line prints for that file alone.
 """
 import json
 import os
@@ -26,12 +29,17 @@ STEP_LIMIT = {"quick": 12, "thorough": 60}
 RULE = (
     "histories of 3-5 steps (thorough: up to 14) over 2-3 generated programs and benchmark files; step kinds: analyze (goal order permuted), analyze_again, "
     "with_settings (cond2arithm / transform_categoricals / numeric_roots, applied like the CLI and followed by default-settings steps), invariants, sensitivity, "
-    "failing (a program Polar refuses); non-trivial = >= 3 analyses of >= 2 distinct programs with a repeat and a goal permutation; distinct by the step sequence"
+    "failing (a program Polar refuses); non-trivial = >= 3 analyses of >= 2 distinct programs with a repeat and a goal permutation; distinct by the step sequence; "
+    "about a third of the cases are command-line runs instead: 2-3 files (sibling / twin programs, repeats) given to ONE action object from ActionFactory with one "
+    "argument namespace, as polar.py:main does (--goals in some order with --at_n, central moments and cumulants, --invariants with and without goals); "
+    "non-trivial = >= 2 different files"
 )
 ASSUMPTIONS = [
     "model: the same single analysis in a forked child of the not-yet-used history process (fresh Polar state: name counter 0, default settings, empty caches), memoised per request; the last analysis of each history is also run in really fresh interpreters (python -m lib.c20sig) under PYTHONHASHSEED 0 and 12345 (thorough: 0, 1, 2, 17, 12345)",
     "signatures compare closed forms as functions (values at n=0..5 and a parameter point), exactness flags, inferred types after canonical renaming of generated names, "
     "reduced Groebner bases of invariant ideals, and (exception type, raising function) of errors",
+    "command-line cases: the model is the same command line with that one file, in a forked child of the unused case process; compared per file: the values printed "
+    "for --at_n (text, else symbolic difference 0), the exact/rounded lines, the reduced Groebner basis of the printed invariants, the error that ends the run",
 ]
 
 BENCH = ["2dwalk.prob", "binomial.prob", "illustrating.prob", "stuttering_p.prob", "conditional_loop.prob", "else_transformation.prob", "square.prob", "bimodal_x.prob"]
